@@ -45,9 +45,9 @@ for pid in ALL:
 man = dict(
     version=1,
     setup_cmd="./setup.sh",
-    hooks=dict(guard="QUIMB_VERIF", enable="no hooks: contracts are sidecar files under /verif/contracts, run-time contracts are installed by monkey-patching inside the check process; QUIMB_VERIF is unused",
+    hooks=dict(guard="QUIMB_VERIF", enable="no hooks: contracts are sidecar files under /verif/contracts, run-time contracts are evaluated by drivers under /verif/drivers that call the real functions; QUIMB_VERIF is unused (nothing in /repo reads it)",
                baseline_off_cmd="cd /repo && /venv/bin/python -m pytest -ra -q -p no:cacheprovider --timeout=900 --continue-on-collection-errors",
-               source_commits=[l.strip() for l in open(os.path.join(ROOT, "fix_commits.txt")) if l.strip() and not l.startswith("#")] if os.path.exists(os.path.join(ROOT, "fix_commits.txt")) else [],
+               source_commits=[],  # no hook / instrumentation commit exists; the unguarded `fix:` commits are listed in fix_commits.txt and known_findings*.json
                add_only=True),
     engines=[
         dict(name="pyvc", path="vf/pyvc.py", serves_properties=claimed, kind_free_text="E1: VC generation from the real Python source (ast) + sidecar contracts, discharged by z3/cvc5; E2 sympy; E4 AST frame/typestate; fdx finite-domain exhaustive"),
